@@ -1,5 +1,6 @@
 import Proofs.C13Spec
 import Proofs.C13Real
+import Proofs.C13Compose
 /-!
 C13 — distance kernels are exact for every dtype, memory layout and thread count.
 
@@ -8,6 +9,20 @@ Model: `Model/Dist.lean` (mirror of `enspara/geometry/libdist.pyx`), `Model/Sche
 `Cell.sqrt q` denotes the (correctly rounded) square root of the exact rational `q`: the
 Euclidean theorems say *which* number is under the root.  Float rounding is not modelled
 (floats are exact rationals), C integer overflow is (two's-complement wrap-around).
+
+What the model does NOT cover (also listed in harness/props/c13.py ASSUMPTIONS):
+* `out` aliasing `X` or `y` is excluded STRUCTURALLY: in the model `X`, `y` and `out` are separate
+  buffers, so the theorems say nothing about overlapping arguments.  The real code accepts such
+  calls and returns non-norms (`out[i] = 0` destroys the input it is about to read); the harness
+  checks only shape, no crash and no write outside `out` there.
+* a writable `out` whose rows share a cell (stride 0 with more than one row, `as_strided`) is
+  `.badRequest` in the model (`kernelRun`), and every memory-level theorem carries
+  `stride ≠ 0 ∨ n ≤ 1`; the real code accepts it and the rows race on the single cell.
+* float32 AND float64 arithmetic is treated as exact rational arithmetic: the float32 kernels
+  really round the difference and the square to single precision (`powf`), float64 ones to double;
+  sums are rounded too; squares that under/overflow are not modelled.  The harness compares
+  bit-for-bit only where the exact evaluation involves no rounding, else within a relative tolerance.
+* signed C overflow is undefined behaviour; the model fixes two's-complement wrap-around.
 -/
 namespace C13
 open Ens Ens.Dist Ens.Sched
@@ -334,6 +349,96 @@ theorem out_independent_of_initial {ε} (k : Kernel) (term : ε → ε → Rat) 
       ∀ i, i < n → r1.buf[outPos out1.offset so i]? = r2.buf[outPos out1.offset so i]?
                    ∧ (r1.buf[outPos out1.offset so i]?).isSome :=
   kernelRun_init_independent k term X y out1 out2 choices1 choices2 r1 r2 hoff hsh hst h1 h2
+
+/-! ## the property sentence as one statement: a call that returns, returns the norms -/
+
+/-- float32 / float64 data: `euclidean` / `manhattan` return, per logical row read through the
+strides, `√Σ(x_j−y_j)²` resp. `Σ|x_j−y_j|`; `hamming` never accepts float data.  Composition of
+validation (`prepare`), dispatch, strided reads, ANY schedule the choice list encodes, and the row
+programs.  FULL (exact-rational arithmetic). -/
+theorem call_returns_norms_float (k : Kernel) (Xm ym : Meta) (X y : Arr Rat)
+    (out : Option (Meta × Arr Cell)) (choices : List Nat) (r : Result)
+    (h : call k Xm ym (.rats X y) out choices = .ok r) :
+    ∃ w rows ys, X.rows? r.n w = some rows ∧ y.elems? w = some ys ∧ rows.length = r.n ∧ ys.length = w ∧
+      k ≠ .hamming ∧
+      (k = .euclidean → r.values = rows.map (fun xs => Cell.sqrt (sqDist xs ys))) ∧
+      (k = .manhattan → r.values = rows.map (fun xs => Cell.val (l1Dist xs ys))) := by
+  obtain ⟨sh, t, -, hdisp, hk⟩ := call_ok_kernelRun k Xm ym _ out choices r h
+  rcases hk with ⟨c, X', y', -, hd, -⟩ | ⟨X', y', hprom, hd, hrun⟩
+  · cases hd
+  cases hd
+  obtain ⟨n, w, so, rows, ys, s⟩ := kernelRun_spec k (termRat k) X y _ choices r hrun
+  have hv := values_of_spec k (termRat k) X y _ r n w so rows ys s
+  have hn := s.hn
+  refine ⟨w, rows, ys, by rw [hn]; exact s.hrows, s.hys, by rw [hn]; exact s.hrowsLen, s.hysLen, ?_, ?_, ?_⟩
+  · rintro rfl
+    exact hamming_dtype_is_int t (dispatch_ok _ _ _ _ _ hdisp).2.1 hprom
+  · rintro rfl
+    rw [hv]; apply List.map_congr_left; intro xs _
+    exact (kernel_row_spec_float xs ys w .nan).1
+  · rintro rfl
+    rw [hv]; apply List.map_congr_left; intro xs _
+    exact (kernel_row_spec_float xs ys w .nan).2
+
+/-- integer data: `hamming` returns the fraction of differing coordinates (for `n_features > 0`),
+unconditionally; `euclidean` / `manhattan` return the norms when the source uses the repaired
+arithmetic (`intArith = .viaDouble`) or when no coordinate of the logical data overflows the
+promoted C type (`NoOverflowSq` / `NoOverflowDiff`; automatic for 8/16-bit types:
+`smallInt_noOverflow`).  PARTIAL exactly as `kernel_row_spec_partial`: without that hypothesis the
+statement is false for int32 / int64 (`overflow_counterexample`). -/
+theorem call_returns_norms_int (k : Kernel) (Xm ym : Meta) (X y : Arr Int)
+    (out : Option (Meta × Arr Cell)) (choices : List Nat) (r : Result)
+    (h : call k Xm ym (.ints X y) out choices = .ok r) :
+    ∃ t c w rows ys, DType.ofName Xm.dtype = some t ∧ t ∈ k.dtypes ∧ t.promote = some c ∧
+      X.rows? r.n w = some rows ∧ y.elems? w = some ys ∧ rows.length = r.n ∧ ys.length = w ∧
+      (k = .hamming → 0 < w →
+        r.values = rows.map (fun xs => Cell.val ((hammingCount xs ys : Rat) / (w : Rat)))) ∧
+      (k = .euclidean →
+        (intArith = .viaDouble ∨ ∀ xs ∈ rows, ∀ p ∈ xs.zip ys, NoOverflowSq c p.1 p.2) →
+        r.values = rows.map (fun xs => Cell.sqrt (sqDist (toRat xs) (toRat ys)))) ∧
+      (k = .manhattan →
+        (intArith = .viaDouble ∨ ∀ xs ∈ rows, ∀ p ∈ xs.zip ys, NoOverflowDiff c p.1 p.2) →
+        r.values = rows.map (fun xs => Cell.val (l1Dist (toRat xs) (toRat ys)))) := by
+  obtain ⟨sh, t, -, hdisp, hk⟩ := call_ok_kernelRun k Xm ym _ out choices r h
+  rcases hk with ⟨c, X', y', hprom, hd, hrun⟩ | ⟨X', y', -, hd, -⟩
+  swap
+  · cases hd
+  cases hd
+  obtain ⟨hname, hmem, -, -⟩ := dispatch_ok _ _ _ _ _ hdisp
+  obtain ⟨n, w, so, rows, ys, s⟩ := kernelRun_spec k (termInt intArith k c) X y _ choices r hrun
+  have hv := values_of_spec k (termInt intArith k c) X y _ r n w so rows ys s
+  have hn := s.hn
+  refine ⟨t, c, w, rows, ys, hname, hmem, hprom, by rw [hn]; exact s.hrows, s.hys,
+    by rw [hn]; exact s.hrowsLen, s.hysLen, ?_, ?_, ?_⟩
+  · rintro rfl hw
+    rw [hv]; apply List.map_congr_left; intro xs _
+    exact hamming_row_spec intArith c xs ys w hw .nan
+  · rintro rfl hyp
+    rw [hv]; apply List.map_congr_left; intro xs hxs
+    generalize intArith = a at hyp ⊢
+    cases a
+    · rcases hyp with hyp | hyp
+      · cases hyp
+      · exact (kernel_row_spec_partial c xs ys w .nan).1 (hyp xs hxs)
+    · exact (kernel_row_spec_repaired c xs ys w .nan).1
+  · rintro rfl hyp
+    rw [hv]; apply List.map_congr_left; intro xs hxs
+    generalize intArith = a at hyp ⊢
+    cases a
+    · rcases hyp with hyp | hyp
+      · cases hyp
+      · exact (kernel_row_spec_partial c xs ys w .nan).2 (hyp xs hxs)
+    · exact (kernel_row_spec_repaired c xs ys w .nan).2
+
+/-- the hypotheses are met by a concrete successful call (int16 view, strided garbage `out`), whose
+returned view is `[√25, √18]` -/
+example :
+    (call .euclidean ⟨"int16", [2, 2], true⟩ ⟨"int16", [2], true⟩
+      (.ints ⟨#[1, 0, 4, 0, 7, 0, 5, 0], 4, [2, 2], [-4, 2]⟩ ⟨#[4, 1], 0, [2], [1]⟩)
+      (some (⟨"float64", [2], true⟩, ⟨#[.nan, .untracked, .val 7], 2, [2], [-2]⟩))
+      [1, 0, 0, 1, 1, 0]).map (·.values) = .ok [.sqrt 25, .sqrt 18] ∧
+    (∀ xs ∈ [[(7 : Int), 5], [1, 4]], ∀ p ∈ xs.zip [(4 : Int), 1], NoOverflowSq .s32 p.1 p.2) := by
+  decide +kernel
 
 /-- a complete call on a reversed, every-other-column int16 view with a strided garbage `out`,
 under a non-trivial schedule -/
